@@ -355,7 +355,7 @@ def make_cases(ctx):
     cases = []
     if ctx.quick:
         plan = [(1, 2), (2, 2), (3, 1), (4, 0)]
-        extra4 = [{"dedup": False}, {"rollup": False}, {"extras": True}]
+        extra4 = [{"dedup": False}]
         tie_n = [2, 3]
     else:
         plan = [(1, 3), (2, 3), (3, 3), (4, 2), (5, 0)]
